@@ -1,5 +1,5 @@
 """C11 mutable version ordering and rollback resistance."""
-import os, struct
+import os, struct, sys
 from hypothesis import strategies as st
 from vf import boot, mutfile, mut_share
 from vf.core import pbytes
@@ -14,18 +14,22 @@ TECHNIQUE = ("Hypothesis-generated publish histories (up to 6 versions) with gen
              "reachable server whenever it was shown a newer version it could not recover, retrieved contents = contents published under that seqnum")
 RULE = ("each case: SDMF/MDMF, k<=3, N<=6 on N..N+2 servers; a writer performs 2-6 steps, each a publish (overwrite, or for MDMF an in-place update of the best version found) while a drawn subset of servers is offline, or a replay "
         "(the harness copies a server's share files of an older version back); then 1-3 reader surveys (MODE_READ servermap update + retrieval of its best version + a plain "
-        "download_best_version) by fresh clients, each with its own offline set and schedule. Non-trivial = at least two versions with different sequence numbers are present "
+        "download_best_version) by fresh clients, each with its own offline set and schedule.  The plain download_best_version runs under server drop-outs (a server "
+        "drops its connection after answering j more calls; or, at the reader's first block fetch, the servers it could not reach come back and a drawn set drops out), "
+        "with contents padded beyond what a survey prefetches so that the fetch really goes back to the servers; the surveys it runs are delimited by observing "
+        "ServermapUpdater.update, and: it returns a published version; not one older than a version its last survey located with k distinct shares on servers still "
+        "reachable at the end; and if any of its surveys was shown a version newer than the one returned, its last survey asked every server reachable at the end. Non-trivial = at least two versions with different sequence numbers are present "
         "on the servers at read time; distinct by whole case.")
 LEVEL_TEXT = "Random histories and schedules; what each client was shown is recorded at the wire, so the oracles do not depend on client-internal state."
 ASSUMPTIONS = ["one writer at a time (C12 covers races)", "servers are honest except for going offline and being rolled back to shares they held earlier",
-               "'located' = answers delivered to the surveying client before its survey completed (the harness stops delivering at that moment)"]
-REQUIRED_CLASSES = ["planted-share", "in-place-update", "stale-shares-at-read", "newer-unrecoverable-seen", "replay", "publish-with-offline", "read-older-than-newest", "mdmf", "sdmf", "publish-failed"]
+               "'located' = answers delivered to the surveying client before its survey completed (the harness stops delivering at that moment; for the plain read, between the start and the end of each ServermapUpdater.update)"]
+REQUIRED_CLASSES = ["plain-read-started-over", "servers-swapped-at-first-fetch", "retrieve-needs-server-reads", "servers-dropped-during-read", "ro-read-with-dropouts-ok", "planted-share", "in-place-update", "stale-shares-at-read", "newer-unrecoverable-seen", "replay", "publish-with-offline", "read-older-than-newest", "mdmf", "sdmf", "publish-failed"]
 BUDGET = {"quick": 900, "thorough": 7200}
 W = "slot_testv_and_readv_and_writev"
 
 
 def plan(tier):
-    n = 120 if tier == "quick" else 2000
+    n = 90 if tier == "quick" else 2000
     return [{"kind": "hyp", "n": n} for _ in range(16)]
 
 
@@ -62,8 +66,26 @@ def cases(draw):
         off1 = draw(st.lists(st.integers(0, n - 1), min_size=1, max_size=2, unique=True))      # (numbers are placement-relative: 0..n-1 hold shares after creation)
         steps = [["publish", off1]] + [["replay", sidx, 0] for sidx in range(servers)] + [[draw(st.sampled_from(["update", "update", "publish"])), []]]
         sub = st.lists(st.integers(0, servers - 1), max_size=servers - 1, unique=True)
-    reads = draw(st.lists(st.tuples(sub, st.lists(st.integers(0, 9), max_size=30)).map(list), min_size=1, max_size=3))
-    return {"fmt": draw(st.sampled_from(["sdmf", "mdmf", "mdmf"])), "k": k, "n": n, "servers": servers, "steps": steps, "reads": reads}
+    forced_reads = None
+    if tmpl == 3:
+        # template D: one or two servers miss an overwrite and keep stale shares; a reader surveys while some holders of the newer version are unreachable and
+        # locates it on the others; when it starts fetching, those drop out and the unreachable ones come back, so the read has to start over while the newer
+        # version is still recoverable
+        k = draw(st.integers(1, 2))
+        n = draw(st.integers(max(4, 3 * k), 6))
+        servers = n + draw(st.integers(0, 2))
+        stale = list(range(k))
+        steps = [["publish", stale]]
+        sub = st.lists(st.integers(0, servers - 1), max_size=servers - 1, unique=True)
+        hidden = draw(st.lists(st.integers(k, n - 1), min_size=k, max_size=n - 2 * k, unique=True))
+        forced_reads = [[hidden, draw(st.lists(st.integers(0, 9), min_size=4, max_size=14)), [], draw(st.sampled_from([True, True, False])), [x for x in range(k, n) if x not in hidden]]]
+    # (offline set, schedule, servers that drop their connection after answering j more calls during the plain read, read-only reader?)
+    reads = draw(st.lists(st.tuples(sub, st.lists(st.integers(0, 9), max_size=30), st.lists(st.tuples(st.integers(0, servers - 1), st.integers(1, 3)).map(list), max_size=servers - 1),
+                                    st.booleans(), st.one_of(st.none(), st.none(), sub)).map(list), min_size=1, max_size=3))
+    if forced_reads:
+        reads = forced_reads + reads[:1]
+    return {"threads": draw(st.sampled_from(["sync", "async"])), "fmt": draw(st.sampled_from(["sdmf", "mdmf", "mdmf"])), "k": k, "n": n, "servers": servers, "steps": steps, "reads": reads,
+            "pad": draw(st.sampled_from([0, 0, 0, 4500 * k] if not forced_reads else [4500 * k, 4500 * k, 0]))}
 
 
 def run_shard(spec, ctx):
@@ -75,15 +97,25 @@ def seq_of(data):
 
 
 def run_case(case, ctx):
+    from vf import boot as _boot
+    _boot.set_thread_mode(case.get("threads") == "async")      # defer_to_thread answered in a later reactor turn (as in production) or synchronously
     k, n, fmt = case["k"], case["n"], case["fmt"]
     mutfile.set_segsize(16)
     g = Grid(ctx.casedir(), case["servers"], {"k": k, "n": n, "happy": 1, "max_segment_size": 131072})
     classes = {fmt}
+    # with padded contents a share is larger than what a survey prefetches, so a retrieval has to go back to the servers for block data
+    PAD = pbytes(3, case.get("pad", 0))
+    if case.get("pad"):
+        classes.add("retrieve-needs-server-reads")
     shown = []        # (client, server, shnum, seqnum) for every share header delivered in a slot_readv answer
     asked = []        # (client, server) for every slot_readv delivered (also failed ones)
     written = []      # (client, seqnum) parsed from write vectors at offset 0
 
+    events = []       # per client, in wire order: ("S", client, server) survey-type read sent, ("F", client, server) other read sent, ("A", client, server, shnum, seqnum, roothash) header shown
+
     def ob(m, phase, res):
+        if phase == "sent" and m.meth == "slot_readv":
+            events.append(("S" if any(o == 0 and l >= 9 for (o, l) in m.args[2]) else "F", m.client, m.server.idx))
         if phase != "delivered":
             return
         if m.meth == "slot_readv":
@@ -96,6 +128,7 @@ def run_case(case, ctx):
                         s = seq_of(datav[first])
                         if s is not None:
                             shown.append((m.client, m.server.idx, sh, s, bytes(datav[first][9:41])))
+                            events.append(("A", m.client, m.server.idx, sh, s, bytes(datav[first][9:41])))
         elif m.meth == W:
             for sh, (tv, wv, nl) in m.args[2].items():
                 for (off, data) in wv:
@@ -107,14 +140,15 @@ def run_case(case, ctx):
     g.sched.observers.append(ob)
     try:
         contents = {}     # seqnum -> bytes
-        r = mutfile.create(g, g.c0, fmt, b"version-1")
+        r = mutfile.create(g, g.c0, fmt, b"version-1" + PAD)
         if r[0] != "ok":
             ctx.fail("create-failed", "create failed: %r" % (r,))
             return
         node = r[1]
         cap = node.get_uri()
+        rocap = node.get_readonly_uri()
         si = node.get_storage_index()
-        contents[1] = [b"version-1"]
+        contents[1] = [b"version-1" + PAD]
         history = [("create", 1)]
         snaps = [{(s, sh): open(p, "rb").read() for (s, sh, p) in g.all_share_paths(si)}]
         last_seq = 1
@@ -124,7 +158,9 @@ def run_case(case, ctx):
         case = dict(case)
         case["steps"] = [[st_[0], [order[x % len(order)] for x in st_[1]]] if st_[0] in ("publish", "update") else ([st_[0], order[st_[1] % len(order)], st_[2]] if st_[0] == "replay" else
                          [st_[0], st_[1], st_[2], order[st_[3] % len(order)]]) for st_ in case["steps"]]
-        case["reads"] = [[[order[x % len(order)] for x in off], sch] for (off, sch) in case["reads"]]
+        case["reads"] = [[[order[x % len(order)] for x in rd_[0]], rd_[1]] + [[[order[x % len(order)], j_] for (x, j_) in (rd_[2] if len(rd_) > 2 else [])], rd_[3] if len(rd_) > 3 else False,
+                          [order[x % len(order)] for x in rd_[4]] if len(rd_) > 4 and rd_[4] is not None else None]
+                         for rd_ in case["reads"]]
 
         def desc():
             return "fmt=%s k=%d N=%d servers=%d history=%r" % (fmt, k, n, case["servers"], history)
@@ -135,7 +171,7 @@ def run_case(case, ctx):
                 if step[1]:
                     classes.add("publish-with-offline")
                 n0, w0 = len(shown), len(written)
-                body = b"version-after-%d-steps-" % len(history) + pbytes(len(history), 5 + len(history))
+                body = b"version-after-%d-steps-" % len(history) + pbytes(len(history), 5 + len(history)) + PAD
                 bodies = [body]
                 if step[0] == "update" and fmt == "mdmf":
                     # an in-place update (as `tahoe put --offset` does) of whatever version the writer's survey finds best
@@ -223,7 +259,7 @@ def run_case(case, ctx):
         from allmydata.mutable.retrieve import Retrieve
         from allmydata.util.consumer import MemoryConsumer
         pub = {v for vs in contents.values() for v in vs}
-        for ri, (offline, sched) in enumerate(case["reads"]):
+        for ri, (offline, sched, kills, ro_reader, swapdown) in enumerate(case["reads"]):
             for s in g.servers:
                 s.down = s.idx in offline
             rd = g.add_client()
@@ -271,11 +307,101 @@ def run_case(case, ctx):
                         classes.add("read-older-than-newest")
                 else:
                     classes.add("retrieve-failed")
-            # and the plain convenience read: must be a published version (which one depends on what that second survey is shown)
-            nd2 = g.add_client().nodemaker.create_from_cap(cap)
-            rr = g.run(nd2.download_best_version())
+            # and the plain convenience read: must be a published version (which one depends on what that second survey is shown).  During it the
+            # servers in `kills` drop their connection after answering j more calls (typically: they answer the survey and are gone for the fetch), so the
+            # read may have to start over; whatever it does, what it returns is judged against everything this client was shown.
+            rd2 = g.add_client()
+            cid2 = rd2.idx
+            nd2 = rd2.nodemaker.create_from_cap(rocap if ro_reader else cap)
+            n1, a1, e1 = len(shown), len(asked), len(events)
+            killed = []
+            for (sidx, j_) in kills:
+                srv = g.servers[sidx]
+                if not srv.down and srv.disconnect_after is None:
+                    srv.disconnect_after = srv.total_calls + j_
+                    killed.append((sidx, j_))
+            swapped = []
+
+            def swap_ob(m, phase, res):
+                # when this reader sends its first block fetch: the servers it could not reach during the survey come back, the servers in `swapdown` drop out
+                if phase == "sent" and m.meth == "slot_readv" and m.client == cid2 and not swapped and not any(o == 0 and l >= 9 for (o, l) in m.args[2]):
+                    swapped.append(True)
+                    g.sched.ci = 0          # the delivery choices apply afresh to whatever the read does next
+                    for s_ in g.servers:
+                        if s_.idx in offline:
+                            s_.down = False
+                        elif s_.idx in swapdown and not s_.down:
+                            s_.disconnect()
+            if swapdown is not None:
+                g.sched.observers.append(swap_ob)
+            g.sched.choices, g.sched.ci = list(sched), 0
+            from allmydata.mutable import servermap as smmod
+            orig_update = smmod.ServermapUpdater.update
+            surveys = []         # the surveys this reader runs, delimited by the calls to ServermapUpdater.update (observation only)
+
+            def upd(self_):
+                d_ = orig_update(self_)
+                if self_._storage_broker is rd2.broker:
+                    rec_ = {"mode": self_.mode, "start": len(events), "end": None}
+                    surveys.append(rec_)
+
+                    def _done(res_):
+                        rec_["end"] = len(events)
+                        return res_
+                    d_.addBoth(_done)
+                return d_
+            smmod.ServermapUpdater.update = upd
+            try:
+                rr = g.sched.run_until(nd2.download_best_version())
+            finally:
+                smmod.ServermapUpdater.update = orig_update
+            if swapdown is not None:
+                g.sched.observers.remove(swap_ob)
+                if swapped:
+                    classes.add("servers-swapped-at-first-fetch")
+                    killed = killed + [("swap: up %r, down %r" % (sorted(offline), sorted(swapdown)))]
+            for srv in g.servers:
+                srv.disconnect_after = None
+            up_end = set(s_.idx for s_ in g.servers if not s_.down)
+            if os.environ.get("VERIF_DEBUG"):
+                sys.stderr.write("DEBUG truth=%r\n" % (sorted((k_, v_) for k_, v_ in truth.items()),))
+                sys.stderr.write("DEBUG plain read: killed=%r result=%r up_end=%r asked=%r shown=%r\n" % (killed, rr if rr[0] != "ok" else ("ok", rr[1][:20]), sorted(up_end),
+                                 [x for x in asked[a1:] if x[0] == cid2], [(x[1], x[2], x[3]) for x in shown[n1:] if x[0] == cid2]))
+            if killed:
+                classes.add("servers-dropped-during-read")
             if rr[0] == "ok":
                 ctx.check(rr[1] in pub, "unpublished-bytes", "%s: download_best_version returned %d bytes nobody published" % (rdesc, len(rr[1])))
+                R = max([sq for sq, vs in contents.items() if rr[1] in vs] or [0])
+                epochs = []
+                for sv in surveys:
+                    ep = {"asked": set(), "seen": {}, "mode": sv["mode"]}
+                    # (the first queries are sent synchronously inside update(), i.e. just before `start` was recorded: look back to the previous survey's end)
+                    lo = epochs and surveys[len(epochs) - 1]["end"] or e1
+                    for ev in events[lo:sv["end"]]:
+                        if ev[1] != cid2:
+                            continue
+                        if ev[0] == "S":
+                            ep["asked"].add(ev[2])
+                        elif ev[0] == "A":
+                            ep["seen"].setdefault((ev[4], ev[5]), set()).add((ev[2], ev[3]))
+                    epochs.append(ep)
+                last = epochs[-1] if epochs else {"asked": set(), "seen": {}}
+                d2desc = "%s; then a %s reader's download_best_version (servers dropping out after j further calls: %r) returned seq%d after %d survey(s) %r that were shown %r" % (
+                    desc(), "read-cap" if ro_reader else "write-cap", killed, R, len(epochs), [e_["mode"] for e_ in epochs],
+                    [{"seq%d-%s" % (s_[0], s_[1][:2].hex()): sorted(v) for s_, v in sorted(e_["seen"].items())} for e_ in epochs])
+                if len(epochs) > 1:
+                    classes.add("plain-read-started-over")
+                rec_last = [s_[0] for s_, holders in last["seen"].items() if len(set(sh_ for (srv_, sh_) in holders if srv_ in up_end)) >= k]
+                if rec_last:
+                    ctx.check(R >= max(rec_last), "returned-older-than-located", "%s: its last survey located seq%d with at least k distinct shares on servers that were still reachable when the read ended" % (d2desc, max(rec_last)),
+                              dropped=bool(killed), ro=ro_reader)
+                newer_seen = sorted(set(s_[0] for e_ in epochs for s_ in e_["seen"] if s_[0] > R))
+                if newer_seen:
+                    classes.add("plain-read-saw-newer-than-returned")
+                    ctx.check(up_end <= last["asked"], "stopped-early", "%s: it had seen version(s) %r, newer than the one it returned, but its last survey asked only servers %r of the reachable %r" % (
+                        d2desc, newer_seen, sorted(last["asked"]), sorted(up_end)), newer=True, dropped=bool(killed), ro=ro_reader)
+                if killed and ro_reader:
+                    classes.add("ro-read-with-dropouts-ok")
             elif rr[0] == "hang":
                 ctx.fail("hang", "%s: download_best_version never completed" % rdesc)
     finally:
